@@ -45,7 +45,7 @@ func lexArgs(text string) lexResult {
 	// tilde-prefix bookkeeping of the current word
 	tildeOpen, tildeQuoted, tildeActive := false, false, false
 	tildePrefix := ""
-	seenEq := false // an unquoted '=' occurred in the current word
+	seenEq := false  // an unquoted '=' occurred in the current word
 	var prevLit byte // previous byte of this word if it was taken literally in the unquoted state, else 0
 
 	closeTilde := func() {
@@ -225,13 +225,13 @@ func judgeLex(s, esc string, tildeForm bool) string {
 	} else {
 		w := r.Words[0]
 		if w.Val != s {
-			bad = append(bad, fmt.Sprintf("word value %q differs from the input", clipq(w.Val)))
+			bad = append(bad, fmt.Sprintf("word value %s differs from the input", clipq(w.Val)))
 		}
 		switch {
 		case wantTilde && !(w.TildeActive && w.TildePrefix == "~"):
 			bad = append(bad, "the leading ~/ is not left unquoted for the shell to expand")
 		case !wantTilde && w.TildeActive:
-			bad = append(bad, fmt.Sprintf("unquoted tilde-prefix %q at the word start is expanded by the shell", clipq(w.TildePrefix)))
+			bad = append(bad, fmt.Sprintf("unquoted tilde-prefix %s at the word start is expanded by the shell", clipq(w.TildePrefix)))
 		}
 	}
 	return strings.Join(bad, "; ")
